@@ -116,6 +116,18 @@ def catalogue():
     add("fs-key-no-arrow", "fs", sub(F, "Al->Cu :", "AlCu :"), "cfg", "Finnis-Sinclair density key without '->'")
     add("fs-key-two-arrows", "fs", sub(F, "Al->Cu :", "Al->Cu->Cu :"), "cfg", "Finnis-Sinclair density key with two '->'")
     add("eam-unknown-species", "eam", sub(sub(E, "Cu : as.sqrt 2.0", "Qq : as.sqrt 2.0"), "Cu : as.bornmayer 5.0 0.5", "Qq : as.bornmayer 5.0 0.5"), "cfg", "species with no atomic number/mass anywhere")
+    # species labels that are not chemical elements, described only through [Species] (the documented way to use labels such as A and B): the optional lattice constant
+    # and lattice type may be left out (defaults 0.0 and fcc); a missing atomic number or mass is a configuration error (round-7 seed C16_11: a bare KeyError from the
+    # reference-data look-up)
+    custom = lambda extra: E.replace("Cu", "Xq").replace("Xq.lattice_constant : 3.61\nXq.lattice_type : fcc\n", extra)
+    add("species-custom-valid-minimal", "eam", custom("Xq.atomic_number : 29\nXq.atomic_mass : 63.5\n"), "ok", "a non-element label with atomic number and mass only")
+    add("species-custom-valid-lattice-constant-only", "eam", custom("Xq.atomic_number : 29\nXq.atomic_mass : 63.5\nXq.lattice_constant : 3.6\n"), "ok", "a non-element label without lattice_type")
+    add("species-custom-valid-lattice-type-only", "eam", custom("Xq.atomic_number : 29\nXq.atomic_mass : 63.5\nXq.lattice_type : bcc\n"), "ok", "a non-element label without lattice_constant")
+    add("species-custom-no-mass", "eam", custom("Xq.atomic_number : 29\n"), "cfg", "a non-element label without atomic_mass")
+    add("species-custom-no-number", "eam", custom("Xq.atomic_mass : 63.5\nXq.lattice_type : bcc\n"), "cfg", "a non-element label without atomic_number")
+    for t_ in ("DL_POLY_EAM", "lammps_eam_alloy"):
+        add("species-custom-valid-minimal-" + t_, "eam", sub(custom("Xq.atomic_number : 29\nXq.atomic_mass : 63.5\n"), "target : setfl", "target : " + t_), "ok",
+            "a non-element label with atomic number and mass only, target %s" % t_)
     add("species-key-no-dot", "eam", sub(E, "Cu.lattice_type : fcc", "Culattice_type : fcc"), "cfg", "[Species] key without '.'")
     add("species-number-text", "eam", sub(E, "Cu.lattice_constant : 3.61", "Cu.lattice_constant : big"), "cfg", "non-numeric lattice_constant")
     add("species-atomic-number-text", "eam", sub(E, "Cu.lattice_type : fcc", "Cu.atomic_number : twenty-nine"), "cfg", "non-numeric atomic_number")
